@@ -93,3 +93,46 @@ Fixpoint max_keep (k : Z) (evs : list pev) : Z :=
   | PUpd _ _ _ _ :: r => max_keep k r
   | PPrune keep _ :: r => max_keep (Z.max k keep) r
   end.
+
+(* ---- histories of the whole module state ---- *)
+Inductive gop :=
+| GCreate (raws : list (raw * raw))                     (* a pool is created (afterCreatePool) *)
+| GTouch (id : Z)                                       (* a price-affecting operation on a pool (trackChangedPool) *)
+| GEnd (dt : Z) (raws : list (Z * list (raw * raw)))    (* EndBlock with every pool's raw spot prices; the next block starts dt later *)
+| GPrune (keep last : Z)                                (* the pruning state is set *)
+| GEpoch.                                               (* the epoch hook sets the pruning state *)
+
+Section Global.
+Variable lg : Z -> option Z.
+Definition gstep (st : state) (o : gop) : state :=
+  match o with
+  | GCreate raws => create_pool st raws
+  | GTouch id => track st id
+  | GEnd dt raws => next_block (end_block lg st raws) dt
+  | GPrune keep last => set_pruning st keep last
+  | GEpoch => epoch_end st
+  end.
+(* run, also collecting the largest keep time ever put into the pruning state *)
+Fixpoint grun (st : state) (km : Z) (ops : list gop) : state * Z :=
+  match ops with
+  | [] => (st, km)
+  | o :: r =>
+      let km' := match o with
+                 | GPrune keep _ => Z.max km keep
+                 | GEpoch => if 0 <? Z.of_nat (length (s_pools st)) then Z.max km (s_now st - s_keep_period st) else km
+                 | _ => km
+                 end in
+      grun (gstep st o) km' r
+  end.
+End Global.
+
+Definition ginit (t0 h0 limit keep_period : Z) : state :=
+  mkState t0 h0 [] [] (mkPruning false zero_time 0) keep_period limit false.
+Definition pair_of (st : state) (id : Z) (k : nat) : option pairst :=
+  match get_pool st id with Some pl => nth_error pl k | None => None end.
+Fixpoint positive_dts (ops : list gop) : Prop :=
+  match ops with
+  | [] => True
+  | GEnd dt _ :: r => 0 < dt /\ positive_dts r
+  | _ :: r => positive_dts r
+  end.
